@@ -94,7 +94,7 @@ def run_alloc_level(chk, configs):
             vlib.log("  %s (role A only): %d distinct, %d generated, %.0fs" % (cfg, res.distinct, res.generated, res.wall))
             continue
         if mode == "sim":
-            raw, res = vlib.simulate_walks(chk, "AllocMC", cfg, SIM["num"], SIM["depth"], chk.seed)
+            raw, res = vlib.simulate_walks(chk, "AllocMC", cfg, SIM["num"], SIM["depth"], chk.seed, keep_states=True, mode="generate")
             if not raw:
                 raise vlib.Inconclusive("simulation produced no walks: " + res.out[-800:])
             edges = []
@@ -103,8 +103,9 @@ def run_alloc_level(chk, configs):
                 idx = []
                 for o in w:
                     idx.append(len(edges))
-                    edges.append((vlib.canon(o["pre"]), o["act"], vlib.canon(o["post"])))
+                    edges.append((o["pre_c"], o["act"], o["post_c"]))
                 walks.append(idx)
+            del raw
             init_key = edges[walks[0][0]][0]
             left = 0
             sample = 1
@@ -123,10 +124,9 @@ def run_alloc_level(chk, configs):
         obs_path = replay_walks(chk, scen, domain_path, cfg)
         fails, nlines = judge(chk, obs_path)
         # index observations for reporting / drift
-        obs = [json.loads(l) for l in open(obs_path)]
-        byw = {}
-        for o in obs:
-            byw.setdefault(o["w"], []).append(o)
+        mine = [f for f in fails if any(x.startswith(prefix) for x in f["fails"])]
+        keep = set(f["w"] for f in mine) | {"w0"}
+        byw = {}      # only the sample walk and the failing walks are kept in memory
         model = {}
         mstates = set()
         ncache = {}
@@ -144,12 +144,15 @@ def run_alloc_level(chk, configs):
         drift = offmodel = 0
         nontrivial = set()
         covered = set()
-        for n, w in enumerate(walks):
-            ol = byw.get("w%d" % n, [])
+        for wname, ol in vlib.iter_walk_obs(obs_path):
+            if wname in keep:
+                byw[wname] = ol
             for k, o in enumerate(ol[1:]):
                 pk, qk = norm_obs(ol[k]), norm_obs(o)
                 key = (pk, stim(o["act"]))
-                if key in model:
+                if mode == "sim":
+                    pass      # a simulation follows one branch of the model's choices: no drift statistics
+                elif key in model:
                     covered.add(key)
                     if qk not in model[key]:
                         drift += 1
@@ -171,7 +174,6 @@ def run_alloc_level(chk, configs):
         chk.cov["exhaustive"] = (left == 0 and sample is None)
         if walks and not chk.cov["samples"]:
             chk.cov["samples"].append({"cfg": cfg, "walk": steps[0][:8], "observations": byw.get("w0", [])[:3]})
-        mine = [f for f in fails if any(x.startswith(prefix) for x in f["fails"])]
         # confirm: re-execute the failing walks alone (truncated at the failing step) and re-judge
         if mine:
             confirm(chk, mine, walks, steps, init_state, domain_path, byw)
